@@ -10,6 +10,8 @@
 (*          (period * tolerance), both in the integer time base of the     *)
 (*          time-stamps                                                    *)
 (*   phase  "new" | "parsed" | "pastified" | "online" | "offline"          *)
+(*          | "stale" (pastify() again after updates: only reset() is      *)
+(*          specified)                                                     *)
 (*   phi    the AST as written (sub-specifications inlined)                *)
 (*   inst   the AST installed in the monitor (= phi until pastify())       *)
 (*   hist   [var -> Seq]   samples since the last reset / of the last      *)
@@ -54,6 +56,13 @@ ParseF(m, f) == [m EXCEPT !.phase = "parsed", !.phi = f, !.inst = f]
 CanPastify(m) == m.phase = "parsed" /\ Pastifiable(m.phi)
 PastifyF(m, Dev) == [m EXCEPT !.phase = "pastified", !.inst = Pastify(m.phi, Dev)]
 
+\* pastify() once more, on a monitor whose installed formula has no future operator (a pastified monitor, or one for a past
+\* formula, that may already have received updates): the formula stays what it is, but the library builds the operators anew
+\* at the next call.  What update() returns before the next reset() is not specified (phase "stale"); reset() brings the
+\* monitor back to its initial state with the counter at 0 like any other reset (property C10, seed C10-g)
+CanRepastify(m) == m.phase \in {"pastified", "online"} /\ m.inst.op # "null" /\ ~HasFuture(m.inst)
+RepastifyF(m) == IF m.phase = "online" THEN [m EXCEPT !.phase = "stale"] ELSE m
+
 \* the tolerance test of DiscreteTimeInterpreter.update_sampling_violation_counter
 BadGap(c, g) == g < c.period - c.tol \/ g > c.period + c.tol
 CountBad(c, T) == Cardinality({k \in 1..(Len(T) - 1) : BadGap(c, T[k+1] - T[k])})
@@ -81,11 +90,12 @@ UpdateF(m, s, t, Dev) ==
 
 \* reset(): operators back to their initial memories, histories and counters cleared.  Before the first update it changes
 \* nothing: the phase stays what it was, so pastify() may still follow (parse, reset, pastify, update ...)
-CanReset(m) == OnlinePhase(m) /\ OnlineOK(m.inst)
+CanReset(m) == (OnlinePhase(m) \/ m.phase = "stale") /\ OnlineOK(m.inst)
 ResetF(m, Dev) ==
-  [m EXCEPT !.on = InitOn(m.inst), !.outOn = <<>>,
+  [m EXCEPT !.phase = IF m.phase = "stale" THEN "online" ELSE m.phase,
+            !.on = InitOn(m.inst), !.outOn = <<>>,
             !.hist = EmptyW(m.cfg.vars), !.ts = <<>>,
-            !.viol = IF "resetKeepsViol" \in Dev THEN m.viol ELSE 0]
+            !.viol = IF "resetKeepsViol" \in Dev \/ ("staleKeepsViol" \in Dev /\ m.phase = "stale") THEN m.viol ELSE 0]
 
 \* evaluate(dataset): the offline result is the semantics of the whole trace
 CanEvaluate(m) == m.phase \in {"parsed", "offline"}
@@ -120,6 +130,7 @@ PastifyA(i)   == Mode = "online" /\ CanPastify(ms[i]) /\ ms' = [ms EXCEPT ![i] =
 Update(i, s, g) == /\ Mode = "online" /\ CanUpdate(ms[i]) /\ Len(ms[i].outOn) < MaxLen
                    /\ ms' = [ms EXCEPT ![i] = UpdateF(ms[i], s, NextStamp(ms[i], g), Dev)]
 Reset(i)      == Mode = "online" /\ CanReset(ms[i]) /\ ms' = [ms EXCEPT ![i] = ResetF(ms[i], Dev)]
+Repastify(i)  == Mode = "online" /\ CanRepastify(ms[i]) /\ ms[i].phase = "online" /\ ms' = [ms EXCEPT ![i] = RepastifyF(ms[i])]
 Extend(i, s, g) == /\ Mode = "offline" /\ CanEvaluate(ms[i]) /\ Len(ms[i].ts) < MaxLen
                    /\ ms' = [ms EXCEPT ![i] = ExtendF(ms[i], s, NextStamp(ms[i], g))]
 
@@ -128,6 +139,7 @@ Next == \E i \in 1..K :
           \/ PastifyA(i)
           \/ \E s \in [ms[i].cfg.vars -> Vals], g \in Gaps : Update(i, s, g) \/ Extend(i, s, g)
           \/ Reset(i)
+          \/ Repastify(i)
 
 Spec == Init /\ [][Next]_vars
 
@@ -185,7 +197,7 @@ InvC13 == \A i \in 1..K : C13(ms[i])
 \* C10 as an action property: a step that empties outOn of an online object is a reset and leaves it
 \* in the initial state
 ActC10 == [][\A i \in 1..K :
-              (OnlinePhase(ms[i]) /\ ms'[i].phase = "online" /\ ms'[i].outOn = <<>>) =>
+              ((OnlinePhase(ms[i]) \/ ms[i].phase = "stale") /\ ms'[i].phase = "online" /\ ms'[i].outOn = <<>>) =>
                  (ms'[i].on = InitOn(ms[i].inst) /\ ms'[i].viol = 0 /\ ms'[i].ts = <<>>)]_vars
 
 \* C11 (isolation): a step changes at most one object
